@@ -1383,7 +1383,7 @@ def k5(facts, tier):
     mentions_target = [y for y in walk(f["body"]) if y.get("k") == "Call" and (callee(y) or "").rsplit("::", 1)[-1] in
                        ("iter_mut", "for_each", "zip", "chain", "copy_from_slice", "clone_from_slice", "swap", "fill")
                        and any(z.get("k") == "Var" and z.get("v") == target for z in walk(y))]
-    if ev_.unknown or not any(slots) or (missing and any((callee(y) or "").rsplit("::", 1)[-1] in ("iter_mut", "for_each", "zip", "chain")
+    if ev_.unknown or not any(slots) or (missing and any((callee(y) or "").rsplit("::", 1)[-1] in ("for_each", "chain")
                                                           for y in mentions_target)):
         # nothing (or an iterator pipeline) fills the array in a form the folding knows: no verdict
         yield ob(["C14"], "K5", "nonce-injective", "undecided", where(f),
